@@ -79,6 +79,7 @@ type World struct {
 	Procs    []*Proc
 	Resolve  func(req *SpawnReq) (token string, sc *Script)
 	KillHook func(pid, sig int) error // F14: optional failure injection
+	Strip    string                   // path prefix (the run's scratch directory) left out of logged paths
 	Stats    struct {
 		Execs, Exits, Kills, StartFail, ReadErr, HeldPipes, Esrch int
 	}
